@@ -623,7 +623,78 @@ def check_model_config_alias(prog: Program, res: Result) -> None:
            "training_config.yaml no longer equals the configuration the model was built with", init.where, sample={"writes": writes[:3]})
 
 
+def check_runs(prog: Program, res: Result) -> None:
+    """Training actually runs and can be check-pointed for every valid configuration - three necessary conditions that are
+    visible in the code:
+    (steps) the number of batches per epoch handed to the Trainer (limit_train_batches) is never 0: a value derived by an
+      integer division (len(dataset) // batch_size) is clamped to at least 1 where it is stored, otherwise fit() runs zero
+      steps and no checkpoint is written although checkpointing is on;
+    (weights) a per-head loss weight is Optional in the schema (None = default): it is read through an explicit
+      `is None` / `is not None` test - DictConfig.get(key, default) returns None for a key that is present with value None,
+      and None * loss raises in the first step of every builder-made bottom-up configuration;
+    (chunks) the directory the datasets write their chunks into is the path they were given (wrapped in Path at most): the
+      trainer deletes `<np_chunks_path>/...` literally, so a dataset that expands/resolves the path writes where nobody
+      deletes."""
+    R = "C19-run"
+    ci = prog.cls(TRAINER)
+    n = 0
+    for fi in ci.methods.values():
+        for st in walk_function(fi.node):
+            if not (isinstance(st, ast.Assign) and len(st.targets) == 1 and norm(st.targets[0]) == "self.steps_per_epoch"):
+                continue
+            if not any(isinstance(x, ast.BinOp) and isinstance(x.op, ast.FloorDiv) for x in ast.walk(st.value)):
+                continue
+            n += 1
+            res.touch(fi)
+            v = st.value
+            clamped = isinstance(v, ast.Call) and norm(v.func) == "max" and any(astq.const_value(a) is not None and astq.const_value(a) >= 1 for a in v.args)
+            par = getattr(st, "_parent", None)
+            blk = next((getattr(par, f) for f in ("body", "orelse", "finalbody") if isinstance(getattr(par, f, None), list) and st in getattr(par, f)), [])
+            for nx in blk[blk.index(st) + 1:] if st in blk else []:
+                if isinstance(nx, ast.If) and "self.steps_per_epoch" in norm(nx.test) and any(
+                        isinstance(b, ast.Assign) and norm(b.targets[0]) == "self.steps_per_epoch" and isinstance(astq.const_value(b.value), int) and astq.const_value(b.value) >= 1 for b in nx.body):
+                    t = nx.test
+                    if (isinstance(t, ast.Compare) and len(t.ops) == 1 and ((isinstance(t.ops[0], ast.Eq) and astq.const_value(t.comparators[0]) == 0)
+                                                                          or (isinstance(t.ops[0], ast.Lt) and astq.const_value(t.comparators[0]) == 1)
+                                                                          or (isinstance(t.ops[0], ast.LtE) and astq.const_value(t.comparators[0]) == 0))) \
+                            or (isinstance(t, ast.UnaryOp) and isinstance(t.op, ast.Not)):
+                        clamped = True
+                if any(isinstance(x, ast.Attribute) and norm(x) == "self.steps_per_epoch" and isinstance(x.ctx, ast.Load) for x in ast.walk(nx)) and not clamped:
+                    break
+            res.ob(R, clamped, fi.qualname, "an integer-division step count is clamped to >= 1 where it is stored",
+                   f"`{short(st, 70)}` can be 0 (fewer samples than the batch size) and is not clamped before it is used: Trainer(limit_train_batches=0) runs no step and writes no "
+                   "checkpoint", f"{fi.module.relpath}:{st.lineno}")
+    tr = ci.methods["train"]
+    lim = [k.value for c in walk_function(tr.node) if isinstance(c, ast.Call) for k in c.keywords if k.arg == "limit_train_batches"]
+    res.ob(R, len(lim) == 1 and norm(lim[0]) == "self.steps_per_epoch", tr.qualname, "limit_train_batches = self.steps_per_epoch", f"limit_train_batches is {[short(x, 30) for x in lim]}", tr.where)
+    res.ob(R, n >= 1, ci.qualname, "derived step counts found", "no integer-division step count found", f"{ci.module.relpath}:{ci.node.lineno}")
+    # (weights)
+    tm = prog.cls("sleap_nn.training.lightning_modules:TrainingModel").methods["__init__"]
+    res.touch(tm)
+    lw = [st for st in walk_function(tm.node) if isinstance(st, ast.Assign) and norm(st.targets[0]) == "self.loss_weights"]
+    res.ob(R, len(lw) >= 1, tm.qualname, "loss weights are collected", "self.loss_weights is no longer built in TrainingModel.__init__", tm.where)
+    for st in lw:
+        if isinstance(st.value, (ast.List, ast.Tuple)) and all(isinstance(e, ast.Constant) for e in st.value.elts):
+            continue
+        txt = norm(astq.expand_at(tm.node, st.value, st))
+        reads = "loss_weight" in txt
+        guarded = reads and ("is not None" in txt or "is None" in txt)
+        res.ob(R, guarded or not reads, tm.qualname, "an unset (None) loss weight falls back to a number",
+               f"`{short(st, 70)}` reads the Optional `loss_weight` without an `is None` test (`.get(key, default)` / `or` do not replace a key that is present with value None "
+               "correctly): the None of every builder-made multi-head configuration reaches `None * loss`", f"{tm.module.relpath}:{st.lineno}")
+    # (chunks)
+    bd = prog.cls("sleap_nn.data.custom_datasets:BaseDataset").methods["__init__"]
+    res.touch(bd)
+    for st in walk_function(bd.node):
+        if isinstance(st, ast.Assign) and any(norm(t) in ("self.np_chunks_path", "path") for t in st.targets) and "np_chunks_path" in norm(st.value):
+            bad = [norm(c.func) for c in ast.walk(st.value) if isinstance(c, ast.Call) and norm(c.func).split(".")[-1] not in ("Path", "str", "isinstance")]
+            res.ob(R, not bad, bd.qualname, "chunks are written under the path that was given", f"`{short(st, 70)}` transforms the chunk directory ({bad}): the datasets write "
+                   "their chunks somewhere else than the literal path the trainer later deletes", f"{bd.module.relpath}:{st.lineno}")
+    res.floor(R, 5)
+
+
 def check(prog: Program, res: Result) -> None:
+    check_runs(prog, res)
     check_mask(prog, res)
     check_final(prog, res)
     check_initial(prog, res)
